@@ -220,6 +220,7 @@ func TestPopulations(t *testing.T) {
 			s.Cons = append(s.Cons, c)
 		}
 		var runs []obsRun
+		firstSeen := ""
 		for i := 0; i < reps(); i++ {
 			s.Finish(t)
 			in := s.Instantiate()
@@ -232,12 +233,11 @@ func TestPopulations(t *testing.T) {
 			if in.Out.Panic != nil {
 				t.Fatalf("C10: start-up panicked: %v\n%s", in.Out.Panic, s.Shape())
 			}
-			// the factory post-processor saw every registered component, whatever the enumeration order
-			for _, c := range in.Comps {
-				n, _ := model.NameOf(c)
-				if k := sort.SearchStrings(see.seen, n); k >= len(see.seen) || see.seen[k] != n {
-					t.Fatalf("C10: a factory post-processor looking at the registered components did not see %q (it saw %d: %v) - order reg=%v mode=%d seed=%x\n%s", n, len(see.seen), see.seen, s.RegPerm, s.OrdMode, s.OrdSeed, s.Shape())
-				}
+			// what a factory post-processor sees of the registered components does not depend on the order either
+			if i == 0 {
+				firstSeen = strings.Join(see.seen, ",")
+			} else if now := strings.Join(see.seen, ","); now != firstSeen {
+				t.Fatalf("C10: a factory post-processor looking at the registered components saw [%s] in run 0 and [%s] in run %d - only orders differ (reg=%v mode=%d seed=%x)\n%s", firstSeen, now, i, s.RegPerm, s.OrdMode, s.OrdSeed, s.Shape())
 			}
 			r := observe(in)
 			r.order = fmt.Sprintf("reg=%v mode=%d seed=%x nat=%v", s.RegPerm, s.OrdMode, s.OrdSeed, in.S.NoPermut)
